@@ -27,7 +27,7 @@ T = 'formats/txt/writer.go'
 
 
 def restore():
-    subprocess.run(['git', 'checkout', '-q', '--', 'formats/txt/writer.go'], cwd=WT)
+    subprocess.run(['git', 'checkout', '-q', '--', 'formats/txt/writer.go', 'formats/obj/fs.go'], cwd=WT)
     shutil.copy(os.path.join(BASE, 'reader.go'), os.path.join(WT, R))
     shutil.copy(os.path.join(BASE, 'writer.go'), os.path.join(WT, W))
 
@@ -512,6 +512,20 @@ M('K11', ['MAT-1'], (R, """		if trisSenseLastMat > 0 && len(workingGeom.meshMats
 	}
 """))
 
+# ---- round 3: material identity in fs.go (ORD-2 / MAT-3); restore() resets fs.go through git
+F = 'formats/obj/fs.go'
+LOAD_LOOP = """		for matI, mat := range materials {
+			loadedMaterials[mat.Name] = &materials[matI]
+		}"""
+M('S4', ['ORD-2', 'MAT-3'], (F, LOAD_LOOP, """		for _, mat := range materials {
+			loadedMaterials[mat.Name] = &mat
+		}"""))
+M('I01', ['MAT-3'], (F, LOAD_LOOP, """		for _, mat := range materials {
+			loadedMaterials[mat.Name] = &materials[0]
+		}"""))
+M('I02', ['MAT-3'], (F, """			meshes[meshI].Mesh.Materials()[matI].Material = loadedMaterials[mat.Material.Name]""", """			_ = mat
+			meshes[meshI].Mesh.Materials()[matI].Material = loadedMaterials[mesh.Mesh.Materials()[0].Material.Name]"""))
+
 # ---------------------------------------------------------------- refactors (behaviour preserving)
 
 def rename_all(path, pairs):
@@ -968,6 +982,22 @@ RF('R23', (W, """		if len(meshes) > 1 || objMesh.Name != "" {
 RF('R24', (R, """			if !workingGeom.empty() {
 				closeMaterialRange()""", """			if len(workingGeom.tris) > 0 {
 				closeMaterialRange()"""))
+
+
+RF('RI1', (F, LOAD_LOOP, """		for _, mat := range materials {
+			mat := mat
+			loadedMaterials[mat.Name] = &mat
+		}"""))
+RF('RI2', (F, LOAD_LOOP, """		for i := 0; i < len(materials); i++ {
+			loadedMaterials[materials[i].Name] = &materials[i]
+		}"""))
+RF('RI3', (F, LOAD_LOOP, """		ptrs := make([]*modeling.Material, len(materials))
+		for i := range materials {
+			ptrs[i] = &materials[i]
+		}
+		for _, p := range ptrs {
+			loadedMaterials[p.Name] = p
+		}"""))
 
 
 def apply_and_run(name, table):
